@@ -15,6 +15,7 @@ type ExchangeJSightSchema struct {
 	*jschema.JSchema
 
 	onceCompile            sync.Once
+	compileErr             error
 	onceExample            sync.Once
 	example                []byte
 	exampleErr             error
@@ -75,19 +76,17 @@ func (e *ExchangeJSightSchema) Notation() notation.SchemaNotation {
 	return notation.SchemaNotationJSight
 }
 
-func (e *ExchangeJSightSchema) Compile() (err error) {
+func (e *ExchangeJSightSchema) Compile() error {
 	e.onceCompile.Do(func() {
-		err = e.buildContent()
-		if err != nil {
+		e.compileErr = e.buildContent()
+		if e.compileErr != nil {
 			return
 		}
 
-		err = e.processAllOf(e.exchangeUsedUserTypes)
-		if err != nil {
-			return
-		}
+		e.compileErr = e.processAllOf(e.exchangeUsedUserTypes)
 	})
-	return err
+	// every call reports the failure, not only the first one
+	return e.compileErr
 }
 
 func (e *ExchangeJSightSchema) buildContent() error {
